@@ -1,1 +1,2 @@
-
+pub mod links;
+pub mod mref;
